@@ -10,6 +10,7 @@ import (
 
 	"verif/sa/internal/ai"
 	"verif/sa/internal/report"
+	"verif/sa/internal/world"
 )
 
 func init() {
@@ -115,6 +116,40 @@ func checkC21(c *Ctx) *report.Result {
 		}
 		r.Ob("Q-period", nReload >= 2, tk+": reload sites (per-clock routine and trigger)", "", fmt.Sprintf("%d stores of the period found", nReload))
 		r.Sample(map[string]interface{}{"channel_type": tk, "timer_stores": len(stores), "period_form": want[tk].String()})
+	}
+
+	// ---- who may restart a frequency timer: the channel's own clocking and the trigger - not a frequency write
+	{
+		nrx4h := [4]map[string]bool{}
+		for k, a := range []int{0xFF14, 0xFF19, 0xFF1E, 0xFF23} {
+			nrx4h[k] = map[string]bool{}
+			for _, f := range c.evalDecoder(true, a, a, nil, nil).Direct {
+				nrx4h[k][fnName(f)] = true
+			}
+		}
+		viol := map[string]string{}
+		n := 0
+		c.evalAllEntries(ai.Hooks{
+			Store: func(_ *ai.State, at ssa.Instruction, p *ai.Ptr, keys []ai.CellKey, _ ai.Value, _ bool) {
+				for _, key := range keys {
+					for k := 0; k < 4; k++ {
+						if key.Obj != chObjs[k].ID || key.Path != ".timer" {
+							continue
+						}
+						n++
+						fn := outerFn(at.Parent())
+						if recvTypeKey(fn) == chObjs[k].TypeKey || c.onStack(nrx4h[k]) {
+							continue
+						}
+						viol[fmt.Sprintf("channel %d frequency timer stored by %s", k+1, fnName(fn))] = c.pos(at)
+					}
+				}
+			},
+		}, func(*world.Entry, *ai.State) {})
+		for k, pos := range viol {
+			r.Ob("Q-period", false, k, pos, "a frequency timer is reloaded only when it runs out and on a trigger (NRx4 bit 7); reloading it on any other write restarts the running period, so that waveform step is not one period long")
+		}
+		r.Ob("Q-period", n > 0, "stores to the frequency timers examined over every run-phase entry", "", fmt.Sprintf("%d stores", n))
 	}
 
 	// ---- Q-trigger: the period loaded by a trigger is that of the frequency just written
